@@ -62,7 +62,7 @@ Proof. exact holds_except_proof. Qed.
 Print Assumptions C06_holds_except.
 
 Example C06_nonvacuous :
-  let p := [OSpawn 1 JSet [OWork; OSpawn 2 JSet [OWork]; OWait 2]; OSpawn 1 JSet [OWork]; OSpawn 4 JFut [OSpawn 5 JSet [OWork]; OWait 5]; OWait 1; OWait 4] in
+  let p := [OSpawn 1 JSet [OWork; OSpawn 2 JSet [OWork]; OWait 2]; OSpawn 1 JSet [OWork]; OSpawn 4 (JFut false) [OSpawn 5 JSet [OWork]; OWait 5]; OWait 1; OWait 4] in
   noup p = true /\ count_work p = 4 /\ mu (init p 2) = 35 /\
   finished (run_sched (init p 2) (concat (repeat (round_robin 3 1) 37))) = true /\
   finished (run_sched (init p 0) (concat (repeat (round_robin 1 2) 37))) = true /\
